@@ -6,24 +6,29 @@
 (* Domain: n <= MaxLen, pf in 1..n+2, item size 2, values                  *)
 (*   A = b"\x01" (needs padding), B = b"\x02\x03" (exact size),            *)
 (*   Z = b"\x00", OVER = 3 bytes (oversized), NONB = not a byte string,    *)
-(* indices -n-1 .. n, slice triples over SV x SV x SV.                     *)
+(* indices -n-1 .. n, slices BaseSl at every state and WideSl (up to every *)
+(* triple over {None, -3..3}) at the seed states.                          *)
 (*                                                                         *)
 (* Generation is a TRANSITION-COVERING set: the VIEW hides the history     *)
 (* variable, so TLC visits every reachable abstract state once (by a       *)
 (* shortest history, breadth first); `Emit` prints that history and the    *)
 (* alphabet applied at that state, and the harness replays the history     *)
-(* extended by EVERY operation of the alphabet (= every transition).  The ghost `fresh` (no chunk touched since  *)
-(* the handle was opened) is part of the view so that every operation is   *)
+(* extended by EVERY operation of the alphabet (= every transition).  The  *)
+(* ghost `fresh` (no chunk touched since the handle was opened) is part of *)
+(* the view so that every operation is                                     *)
 (* also generated directly after a reopen, i.e. on lazily opened files.    *)
 (* From the seed states (alternating A/B contents) the wide slice alphabet *)
-(* WSV x WSV x WSV is applied in addition.                                 *)
+(* WideSl x WideLists is applied in addition.                              *)
 (***************************************************************************)
 EXTENDS PArray, TLC
 
-CONSTANTS MaxLen,    \* largest array length
-          SVI,       \* integer slice components used at every state, e.g. {-1, 2} (None is always included)
-          WSVI,      \* integer slice components used at the seed states
-          EmitOn     \* TRUE: print histories (generator run); FALSE: invariants only
+CONSTANTS MaxLen,     \* largest array length
+          BaseSl,     \* slices applied at every open state            (BaseSl <- SL_small ...)
+          WideSl,     \* slices applied in addition at the seed states (WideSl <- SL_mid ...)
+          BaseLists,  \* value lists for slice assignment at every open state
+          WideLists,  \* value lists for slice assignment at the seed states
+          WideFresh,  \* TRUE: the wide alphabet also at seed states directly after a reopen
+          EmitOn      \* TRUE: print histories (generator run); FALSE: invariants only
 
 VARIABLES hist, fresh
 mcvars == <<par, arr, opened, hist, fresh>>
@@ -43,19 +48,24 @@ O(op, i, sl, xs) == [op |-> op, i |-> i, sl |-> sl, xs |-> xs]
 Pars == {[n |-> n, isz |-> 2, pf |-> pf] : n \in 1..MaxLen, pf \in 1..(MaxLen + 2)}
 GoodPars == {p \in Pars : p.pf <= p.n + 2}
 
-(* named component sets for the configuration file (which cannot hold negative literals): SVI <- SV_small etc. *)
-SV_tiny  == {0 - 1, 2}
-SV_small == {0 - 2, 0 - 1, 0, 1, 3}
-SV_mid   == {0 - 3, 0 - 1, 0, 1, 2}
-SV_full  == (0 - 3)..3
-SV  == {<<>>} \cup {<<v>> : v \in SVI}
-WSV == {<<>>} \cup {<<v>> : v \in WSVI}
-Slices  == {<<a, b, c>> : a \in SV, b \in SV, c \in SV}
-WSlices == {<<a, b, c>> : a \in WSV, b \in WSV, c \in WSV}
+(* named alphabets for the configuration file (which cannot hold negative literals or tuples) *)
+Opt(S)   == {<<>>} \cup {<<v>> : v \in S}                          \* None or a value of S
+Cube(S)  == {<<a, b, c>> : a \in Opt(S), b \in Opt(S), c \in Opt(S)}
+SL_small == {NoSl, <<<<>>, <<>>, <<0 - 1>>>>, <<<<0 - 1>>, <<>>, <<>>>>, <<<<>>, <<2>>, <<>>>>,
+             <<<<2>>, <<>>, <<0 - 1>>>>, <<<<>>, <<>>, <<2>>>>, <<<<1>>, <<0 - 1>>, <<>>>>, <<<<>>, <<>>, <<0>>>>}
+SL_tiny  == Cube({0 - 1, 2})                        \*  27 slices
+SL_mid   == Cube({0 - 3, 0 - 1, 0, 1, 2})           \* 216 slices
+SL_full  == Cube((0 - 3)..3)                        \* 512 slices: every triple over {None, -3..3}
+Slices   == BaseSl
+WSlices  == WideSl
 
 (* value lists for slice assignment: shorter / longer than the slice, failing first / in the middle / late *)
-ValLists  == {<<>>, <<A>>, <<B, A>>, <<A, B, A, B, A>>, <<A, OVER>>, <<B, NONB, A>>, <<OVER>>, <<B, A, NONB>>}
-WValLists == {<<B, A, Z, B, A>>, <<B, OVER, A>>, <<B, A, NONB>>}
+VL_small  == {<<B, A>>, <<A, B, A, B, A>>, <<A, OVER>>, <<B, NONB, A>>}
+VL_full   == VL_small \cup {<<>>, <<A>>, <<OVER>>, <<B, A, NONB>>}
+WVL_small == {<<B, A, Z, B, A>>, <<B, A, NONB>>}
+WVL_full  == WVL_small \cup {<<B, OVER, A>>}
+ValLists  == BaseLists
+WValLists == WideLists
 
 IdxAll == (0 - N - 1)..N
 EdgeIdx == {0 - N - 1, 0 - N, 0 - 1, 0, N - 1, N}
@@ -83,11 +93,12 @@ ClosedOps ==
      O("setslice", 0, NoSl, <<>>), O("contains", 0, NoSl, <<A>>), O("clear", 0, NoSl, <<>>),
      O("iter", 0, NoSl, <<>>), O("len", 0, NoSl, <<>>), O("close", 0, NoSl, <<>>), O("reopen", 0, NoSl, <<>>)}
 
+UseWide == IsSeed /\ (WideFresh \/ ~fresh)
 Ops == IF ~opened THEN ClosedOps
-       ELSE IF IsSeed THEN OpenOps \cup WideOps
+       ELSE IF UseWide THEN OpenOps \cup WideOps
        ELSE OpenOps
 
-OpsKind == IF ~opened THEN "closed" ELSE IF IsSeed THEN "seed" ELSE "open"
+OpsKind == IF ~opened THEN "closed" ELSE IF UseWide THEN "seed" ELSE "open"
 
 MCInit == /\ \E p \in GoodPars : AInit(p)
           /\ hist = <<>> /\ fresh = TRUE
@@ -120,7 +131,7 @@ FailKeeps == \A o \in Ops : ExpOut(o).cls = "raised" => ExpArr(o) = arr
 (* a slice assignment touches only selected positions, at most min(#slice, #values) of them, and
    writes the left-padded value: the last byte stored is the last byte given *)
 SliceSetBound ==
-    opened => \A s \in (IF IsSeed THEN AllSl ELSE Slices), xs \in ValLists \cup WValLists :
+    opened => \A s \in (IF UseWide THEN AllSl ELSE Slices), xs \in ValLists \cup WValLists :
         LET a2 == SetSliceArr(s, xs)
             changed == {p \in 1..N : a2[p] # arr[p]} IN
         /\ SliceOK(s) => Cardinality(changed) <= Used(s, xs)
